@@ -467,6 +467,7 @@ def main():
         if cur is None:
             return
         hid, kind, header, items = cur
+        kind = kind.replace("-ended", "")
         try:
             if kind == "book":
                 run_book(hid, header, items, rnd, snapdir)
@@ -491,11 +492,16 @@ def main():
                 pending = "init"
             elif t[0] == "O":
                 pending = " ".join(t[1:])
-            elif t[0] == "I" and cur is not None:
+            elif t[0] == "I" and cur is not None and not cur[1].endswith("-ended"):
                 if cur[1] == "book":
                     cur[3].append((pending, kv(t[1:])))
                 else:
                     segs = " ".join(t[1:]).split(" | ")
+                    if len(segs) < 3:
+                        # the Rust core aborted on this operation (an arithmetic overflow outside the valid histories): the
+                        # history ends before it
+                        cur = (cur[0], cur[1] + "-ended", cur[2], cur[3])
+                        continue
                     d = kv(segs[0].split(" "))
                     d.update(kv(segs[1].split(" ")))
                     cur[3].append((pending, (d, kv(segs[2].split(" ")))))
